@@ -1,10 +1,83 @@
-(* C18 — ASN.1 marshalling round-trips and is idempotent. *)
+(* C18 — ASN.1 marshalling round-trips and is idempotent.
+   Property theorems only; each is closed by [exact] of a lemma from proof/C18*.v
+   and followed by Print Assumptions.  Encoder model: model/C18.v (marshal.go);
+   decoder model: model/C20.v (asn1.go), run in strict mode. *)
 From Coq Require Import List NArith ZArith Bool Arith.
 From Verif Require Import Harness.
 From VerifModel Require Import C20 C18.
-From VerifProof Require Import C18Proofs.
+From VerifProof Require Import C18Header C18Ints C18Prims C18Field C18Proofs.
 Import ListNotations.
 
-Theorem C18_bool_roundtrip : forall b : bool, parse_bool [if b then 255 else 0]%N = Some b.
-Proof. exact bool_roundtrip. Qed.
-Print Assumptions C18_bool_roundtrip.
+(* the header: parseTagAndLength inverts appendTagAndLength (base-128 tag numbers, long-form lengths) *)
+Theorem C18_header_roundtrip : forall c tag len comp rest,
+  hdr_ok c tag len ->
+  parse_tl false (emit_header c tag len comp ++ rest)
+  = Some ({| t_class := c; t_tag := tag; t_len := len; t_comp := comp |}, rest).
+Proof. exact header_roundtrip. Qed.
+Print Assumptions C18_header_roundtrip.
+
+(* INTEGER bodies: int / int64, int32 / Enumerated, *big.Int *)
+Theorem C18_int64_roundtrip : forall z, (-9223372036854775808 <= z <= 9223372036854775807)%Z ->
+  parse_int64 false (int_bytes z) = Some z.
+Proof. exact int64_roundtrip. Qed.
+Print Assumptions C18_int64_roundtrip.
+
+Theorem C18_int32_roundtrip : forall z, (-2147483648 <= z <= 2147483647)%Z ->
+  parse_int32 false (int_bytes z) = Some z.
+Proof. exact int32_roundtrip. Qed.
+Print Assumptions C18_int32_roundtrip.
+
+Theorem C18_bigint_roundtrip : forall z, parse_bigint false (make_bigint z) = Some z.
+Proof. exact bigint_roundtrip. Qed.
+Print Assumptions C18_bigint_roundtrip.
+
+(* BIT STRING, OBJECT IDENTIFIER, strings, times *)
+Theorem C18_bits_roundtrip : forall bs n, bits_ok bs n ->
+  parse_bitstring (make_bits bs n) = Some (VBits bs n).
+Proof. exact bits_roundtrip. Qed.
+Print Assumptions C18_bits_roundtrip.
+
+Theorem C18_oid_roundtrip : forall arcs bs, oid_ok arcs -> make_oid arcs = Some bs -> parse_oid bs = Some arcs.
+Proof. exact oid_roundtrip. Qed.
+Print Assumptions C18_oid_roundtrip.
+
+Theorem C18_string_roundtrip : forall st s bs,
+  (st = TagIA5String \/ st = TagPrintableString \/ st = TagNumericString \/ (st = TagUTF8String /\ utf8_valid s = true)) ->
+  make_string st s = Some bs -> bs = s /\ parse_string false st s = Some s.
+Proof. exact string_roundtrip. Qed.
+Print Assumptions C18_string_roundtrip.
+
+Theorem C18_gentime_roundtrip : forall t bs, time_ok t -> make_gentime t = Some bs ->
+  parse_gentime false bs = Some (trunc_time t).
+Proof. exact gentime_roundtrip. Qed.
+Print Assumptions C18_gentime_roundtrip.
+
+Theorem C18_utctime_roundtrip : forall t bs, time_ok t -> make_utctime t = Some bs ->
+  parse_utctime false bs = Some (trunc_time t).
+Proof. exact utctime_roundtrip. Qed.
+Print Assumptions C18_utctime_roundtrip.
+
+(* FULL STATEMENT WANTED: for every value of the documented domain, strict Unmarshal of Marshal's output consumes
+   all bytes and yields an equal value (sets up to order, times up to the second); re-marshalling the decoded value
+   reproduces the bytes.
+   PROVED HERE (named _partial): the first sentence, for every type of the universe at any nesting depth built from
+   the 11 non-recursive kinds (bool, int, int32, int64, *big.Int, Enumerated, string, ObjectIdentifier, BitString,
+   time.Time, []byte, Flag), structs and SEQUENCE OF, with every tag form (universal / implicit / explicit;
+   context-specific, application, private; tag numbers >= 31), OPTIONAL, DEFAULT, omitempty and `set` on structs:
+   the decoder returns exactly [norm p t v] (times cut to the second, nil []byte / BitString written as empty,
+   a written Flag = true, omitted fields = their default) and no byte is left.
+   MISSING (outside [dom]): RawValue fields, structs that start with a RawContent field, SET OF (the `set`
+   parameter on a slice / SET-named slice types: sorting of the element encodings); these are covered by the
+   correspondence run and the oracle only.  Re-marshalling: see C18_remarshal below. *)
+Theorem C18_unmarshal_marshal_partial : forall p t v bs,
+  dom p t v -> marshal p t v = Some bs -> unmarshal false p t bs = Some (norm p t v, 0%N).
+Proof. exact unmarshal_marshal. Qed.
+Print Assumptions C18_unmarshal_marshal_partial.
+
+(* the same inside any context: the bytes after the encoding are left untouched; for an omitted field the
+   decoder must be able to tell that what follows is not this field ([skips]) *)
+Theorem C18_field_roundtrip_partial : forall t p v bs rest,
+  dom p t v -> make_field p t v = Some bs -> (bs = [] -> skips p t rest) ->
+  parse_field false p t (bs ++ rest) = Some (norm p t v, rest).
+Proof. exact (proj1 roundtrip_all). Qed.
+Print Assumptions C18_field_roundtrip_partial.
